@@ -67,7 +67,7 @@ Definition builtin_after (cfg : Fixes) (o : Opts) (b : option prof) (n : Z) : op
 
 Lemma main_body_eq cfg o p s :
   main_body cfg o p s
-  = (result_of (p_outcome p),
+  = (result_of (effective_outcome o p (builtin s)),
      mkSt (argv_after cfg o p (argv s)) (path_after o p (path s)) (gp_after cfg (gp s) (next_prof s))
           (builtin_after cfg o (builtin s) (next_prof s)) (timers_after cfg o (timers s)) (tracing s)
           (next_prof s + 1)).
@@ -78,27 +78,27 @@ Proof.
 Qed.
 
 (* does the write-back of the restoring decorators happen? *)
-Definition restoring (cfg : Fixes) (p : Prog) : bool :=
-  match p_outcome p with Exc => fx_finally cfg | _ => true end.
+Definition restoring (cfg : Fixes) (r : result) : bool :=
+  match r with Raised => fx_finally cfg | Returned => true end.
 
 Definition held (cfg : Fixes) (c : cell) : Z := if fx_at_call cfg then ref c else cap c.
 
-Definition wrapped_cell (cfg : Fixes) (p : Prog) (c0 c : cell) : cell :=
-  if restoring cfg p then restore_cell cfg (held cfg c0) (heap_ c0 (held cfg c0)) c else c.
+Definition wrapped_cell (cfg : Fixes) (r : result) (c0 c : cell) : cell :=
+  if restoring cfg r then restore_cell cfg (held cfg c0) (heap_ c0 (held cfg c0)) c else c.
 
 (* the state after one call of main, in closed form *)
 Lemma main_eq cfg o p s :
   main cfg o p s
-  = (result_of (p_outcome p),
-     mkSt (wrapped_cell cfg p (argv s) (argv_after cfg o p (argv s)))
-          (wrapped_cell cfg p (path s) (path_after o p (path s)))
+  = (result_of (effective_outcome o p (builtin s)),
+     mkSt (wrapped_cell cfg (result_of (effective_outcome o p (builtin s))) (argv s) (argv_after cfg o p (argv s)))
+          (wrapped_cell cfg (result_of (effective_outcome o p (builtin s))) (path s) (path_after o p (path s)))
           (gp_after cfg (gp s) (next_prof s))
           (builtin_after cfg o (builtin s) (next_prof s)) (timers_after cfg o (timers s)) (tracing s)
           (next_prof s + 1)).
 Proof.
   unfold main, with_restore. rewrite main_body_eq. unfold wrapped_cell, restoring, held.
-  destruct s as [a pa g b t tr n]. cbn [fst snd argv path].
-  destruct (p_outcome p); cbn [result_of]; try reflexivity.
+  destruct s as [a pa g b t tr n]. cbn [fst snd argv path builtin].
+  destruct (result_of (effective_outcome o p b)); cbn [restoring]; try reflexivity.
   destruct (fx_finally cfg); reflexivity.
 Qed.
 
@@ -117,12 +117,12 @@ Proof. intros H. unfold argv_after, assign_argv. rewrite H. destruct (p_touch_ar
 
 (* the write-back gives the name its old contents back when the decorator holds the
    object the name is (still / again) on *)
-Lemma wrapped_restores cfg p c0 c :
-  restoring cfg p = true -> cap c = cap c0 ->
+Lemma wrapped_restores cfg r c0 c :
+  restoring cfg r = true -> cap c = cap c0 ->
   (fx_at_call cfg = true \/ (ref c0 = cap c0 /\ ref c = ref c0)) ->
-  cur (wrapped_cell cfg p c0 c) = cur c0
-  /\ ref (wrapped_cell cfg p c0 c) = ref c0
-  /\ cap (wrapped_cell cfg p c0 c) = cap c0.
+  cur (wrapped_cell cfg r c0 c) = cur c0
+  /\ ref (wrapped_cell cfg r c0 c) = ref c0
+  /\ cap (wrapped_cell cfg r c0 c) = cap c0.
 Proof.
   intros Hr Hcap H. unfold wrapped_cell. rewrite Hr. unfold restore_cell, held, cur.
   destruct (fx_at_call cfg) eqn:A.
@@ -132,23 +132,23 @@ Qed.
 
 (* ---- one run --------------------------------------------------------------------------- *)
 Lemma run_path cfg o p s :
-  restoring cfg p = true ->
+  restoring cfg (fst (main cfg o p s)) = true ->
   (fx_at_call cfg = true \/ ref (path s) = cap (path s)) ->
   let s' := snd (main cfg o p s) in
   cur (path s') = cur (path s) /\ ref (path s') = ref (path s) /\ cap (path s') = cap (path s).
 Proof.
-  intros Hr H. rewrite main_eq. cbn [snd path].
+  intros Hr H. rewrite main_eq in *. cbn [fst snd path] in *.
   destruct (path_after_ref o p (path s)) as [R C].
   apply wrapped_restores; [exact Hr|exact C|]. destruct H; [left; assumption|right; auto].
 Qed.
 
 Lemma run_argv cfg o p s :
-  restoring cfg p = true ->
+  restoring cfg (fst (main cfg o p s)) = true ->
   (fx_at_call cfg = true \/ (fx_argv_inplace cfg = true /\ ref (argv s) = cap (argv s))) ->
   let s' := snd (main cfg o p s) in
   cur (argv s') = cur (argv s) /\ ref (argv s') = ref (argv s) /\ cap (argv s') = cap (argv s).
 Proof.
-  intros Hr H. rewrite main_eq. cbn [snd argv].
+  intros Hr H. rewrite main_eq in *. cbn [fst snd argv] in *.
   apply wrapped_restores; [exact Hr|apply argv_after_cap|].
   destruct H as [H|[H1 H2]]; [left; assumption|right]. split; [exact H2|apply argv_after_ref_inplace; exact H1].
 Qed.
@@ -196,32 +196,43 @@ Lemma run_tracing cfg o p s : tracing (snd (main cfg o p s)) = tracing s.
 Proof. rewrite main_eq. reflexivity. Qed.
 
 (* ---- sequences of runs ------------------------------------------------------------------ *)
-Definition all_restoring (cfg : Fixes) (rs : list run) : bool := forallb (fun r => restoring cfg (snd r)) rs.
+(* along the execution: every run's write-back happens *)
+Fixpoint all_restoring (cfg : Fixes) (s : St) (rs : list run) : bool :=
+  match rs with
+  | [] => true
+  | (o, p) :: t => restoring cfg (fst (main cfg o p s)) && all_restoring cfg (snd (main cfg o p s)) t
+  end.
+(* along the execution: no run ends with main raising *)
+Fixpoint no_exception (cfg : Fixes) (s : St) (rs : list run) : bool :=
+  match rs with
+  | [] => true
+  | (o, p) :: t => match fst (main cfg o p s) with Returned => true | Raised => false end
+                   && no_exception cfg (snd (main cfg o p s)) t
+  end.
 Definition no_interval (rs : list run) : bool := forallb (fun r => o_interval (fst r) <=? 0) rs.
-(* no run ends with main raising *)
-Definition no_exception (rs : list run) : bool :=
-  forallb (fun r => match p_outcome (snd r) with Exc => false | _ => true end) rs.
 
-Lemma no_exception_restoring cfg rs : no_exception rs = true -> all_restoring cfg rs = true.
+Lemma no_exception_restoring cfg rs : forall s, no_exception cfg s rs = true -> all_restoring cfg s rs = true.
 Proof.
-  unfold no_exception, all_restoring. rewrite !forallb_forall. intros H r Hr. specialize (H r Hr).
-  unfold restoring. destruct (p_outcome (snd r)); [reflexivity..|discriminate].
+  induction rs as [|[o p] t IH]; intros s H; [reflexivity|].
+  cbn [no_exception all_restoring] in *. apply andb_prop in H as [H1 H2].
+  rewrite (IH _ H2). destruct (fst (main cfg o p s)); [reflexivity|discriminate].
 Qed.
 
-Lemma finally_restoring cfg rs : fx_finally cfg = true -> all_restoring cfg rs = true.
+Lemma finally_restoring cfg rs : forall s, fx_finally cfg = true -> all_restoring cfg s rs = true.
 Proof.
-  intros F. unfold all_restoring. rewrite forallb_forall. intros r _. unfold restoring. rewrite F.
-  destruct (p_outcome (snd r)); reflexivity.
+  induction rs as [|[o p] t IH]; intros s F; [reflexivity|].
+  cbn [all_restoring]. rewrite (IH _ F). unfold restoring. rewrite F.
+  destruct (fst (main cfg o p s)); reflexivity.
 Qed.
 
 Lemma runs_path cfg rs : forall s,
-  all_restoring cfg rs = true ->
+  all_restoring cfg s rs = true ->
   (fx_at_call cfg = true \/ ref (path s) = cap (path s)) ->
   let s' := exec_runs cfg s rs in
   cur (path s') = cur (path s) /\ ref (path s') = ref (path s) /\ cap (path s') = cap (path s).
 Proof.
   induction rs as [|[o p] t IH]; intros s Hr H; [cbn; auto|].
-  cbn [all_restoring forallb snd] in Hr. apply andb_prop in Hr as [Hp Ht].
+  cbn [all_restoring] in Hr. apply andb_prop in Hr as [Hp Ht].
   destruct (run_path cfg o p s Hp H) as (A & B & C).
   cbn [exec_runs].
   assert (H' : fx_at_call cfg = true \/ ref (path (snd (main cfg o p s))) = cap (path (snd (main cfg o p s)))).
@@ -231,13 +242,13 @@ Proof.
 Qed.
 
 Lemma runs_argv cfg rs : forall s,
-  all_restoring cfg rs = true ->
+  all_restoring cfg s rs = true ->
   (fx_at_call cfg = true \/ (fx_argv_inplace cfg = true /\ ref (argv s) = cap (argv s))) ->
   let s' := exec_runs cfg s rs in
   cur (argv s') = cur (argv s) /\ ref (argv s') = ref (argv s) /\ cap (argv s') = cap (argv s).
 Proof.
   induction rs as [|[o p] t IH]; intros s Hr H; [cbn; auto|].
-  cbn [all_restoring forallb snd] in Hr. apply andb_prop in Hr as [Hp Ht].
+  cbn [all_restoring] in Hr. apply andb_prop in Hr as [Hp Ht].
   destruct (run_argv cfg o p s Hp H) as (A & B & C).
   cbn [exec_runs].
   assert (H' : fx_at_call cfg = true \/
@@ -290,22 +301,22 @@ Proof. unfold tracing_ok. rewrite runs_tracing. apply oprof_eqb_refl. Qed.
 
 Theorem path_clause cfg s rs :
   (fx_at_call cfg = true \/ ref (path s) = cap (path s)) ->
-  (fx_finally cfg = true \/ no_exception rs = true) ->
+  (fx_finally cfg = true \/ no_exception cfg s rs = true) ->
   path_ok s (exec_runs cfg s rs) = true.
 Proof.
   intros H1 H2. unfold path_ok.
-  assert (Hr : all_restoring cfg rs = true)
+  assert (Hr : all_restoring cfg s rs = true)
     by (destruct H2; [apply finally_restoring|apply no_exception_restoring]; assumption).
   destruct (runs_path cfg rs s Hr H1) as (A & _). cbn zeta in A. rewrite A. apply strs_eqb_refl.
 Qed.
 
 Theorem argv_clause cfg s rs :
   (fx_at_call cfg = true \/ (fx_argv_inplace cfg = true /\ ref (argv s) = cap (argv s))) ->
-  (fx_finally cfg = true \/ no_exception rs = true) ->
+  (fx_finally cfg = true \/ no_exception cfg s rs = true) ->
   argv_ok s (exec_runs cfg s rs) = true.
 Proof.
   intros H1 H2. unfold argv_ok.
-  assert (Hr : all_restoring cfg rs = true)
+  assert (Hr : all_restoring cfg s rs = true)
     by (destruct H2; [apply finally_restoring|apply no_exception_restoring]; assumption).
   destruct (runs_argv cfg rs s Hr H1) as (A & _). cbn zeta in A. rewrite A. apply strs_eqb_refl.
 Qed.
@@ -347,7 +358,7 @@ Qed.
 (* ---- what holds of the tree as it is ----------------------------------------------------------- *)
 Theorem restores_partial cfg s rs :
   tracing_ok s (exec_runs cfg s rs) = true
-  /\ (ref (path s) = cap (path s) -> no_exception rs = true -> path_ok s (exec_runs cfg s rs) = true)
+  /\ (ref (path s) = cap (path s) -> no_exception cfg s rs = true -> path_ok s (exec_runs cfg s rs) = true)
   /\ (no_interval rs = true -> timers_ok s (exec_runs cfg s rs) = true).
 Proof.
   split; [apply tracing_clause|]. split.
@@ -355,50 +366,7 @@ Proof.
   - intros H. apply timers_clause; auto.
 Qed.
 
-(* ---- refutations for the tree as it is (fail to compile once [current] is repaired) ------------ *)
 Definition opts_timed : Opts := mkOpts true false false None 1 ["prog.py"] "" "/T".
-
-Lemma argv_refuted :
-  exists s o p, usable (gp s) = true /\ fst (main current o p s) = Returned
-                /\ argv_ok s (snd (main current o p s)) = false
-                /\ cur (argv (snd (main current o p s))) = o_new_argv o.
-Proof. exists st0, opts0, returns. vm_compute. repeat split; reflexivity. Qed.
-
-Lemma path_on_exception_refuted :
-  exists s o p, usable (gp s) = true /\ ref (path s) = cap (path s) /\ p_outcome p = Exc
-                /\ fst (main current o p s) = Raised
-                /\ path_ok s (snd (main current o p s)) = false
-                /\ cur (path (snd (main current o p s))) = o_script_dir o :: cur (path s).
-Proof. exists st0, opts0, raises. vm_compute. repeat split; reflexivity. Qed.
-
-Lemma profile_unusable_refuted :
-  exists s o p, usable (gp s) = true /\ undecided (gp s) = true
-                /\ profile_ok s (snd (main current o p s)) = false
-                /\ f_enabled (gp (snd (main current o p s))) = Some true
-                /\ f_profile (gp (snd (main current o p s))) = None
-                /\ decorate (gp (snd (main current o p s))) (fun _ => None) [] (Fn 0) = Err TypeError.
-Proof. exists st0, opts0, returns. vm_compute. repeat split; reflexivity. Qed.
-
-Lemma timer_leak_refuted :
-  exists s o p, usable (gp s) = true /\ 0 < o_interval o
-                /\ timers_ok s (snd (main current o p s)) = false
-                /\ timers (snd (main current o p s)) = timers s + 1.
-Proof. exists st0, opts_timed, returns. vm_compute. repeat split; reflexivity. Qed.
-
-Lemma statement_refuted : ~ C19_statement current.
-Proof.
-  intros H. specialize (H st0 [(opts0, returns)] eq_refl). vm_compute in H. discriminate.
-Qed.
-
-(* and these failures are not accidents of the witnesses: for the tree as it is EVERY run
-   leaves the decorator unusable and every -i N run leaks a timer *)
-Lemma every_run_breaks_profile s rs :
-  fx_profile current = false -> rs <> [] -> usable (gp (exec_runs current s rs)) = false.
-Proof. intros H. apply runs_profile_unfixed. exact H. Qed.
-
-Lemma every_timed_run_leaks s o p :
-  fx_timer current = false -> 0 < o_interval o -> timers (snd (main current o p s)) = timers s + 1.
-Proof. intros H. apply run_timers_leak. exact H. Qed.
 
 (* ---- non-vacuity ---------------------------------------------------------------------------- *)
 Definition all_fixed : Fixes := mkFixes false true true true true true.
@@ -407,17 +375,16 @@ Definition opts_module : Opts := mkOpts true false true (Some "/T/setupd") 1 ["m
 Example nonvacuous :
   (* hypotheses of the partial theorem hold of a real-looking run, with its result *)
   usable (gp st0) = true /\ ref (path st0) = cap (path st0)
-  /\ no_exception [(opts0, returns); (opts_module, mkProg SysExit true true)] = true
-  /\ path_ok st0 (exec_runs current st0 [(opts0, returns); (opts_module, mkProg SysExit true true)]) = true
+  /\ no_exception current st0 [(opts0, returns); (opts_module, mkProg SysExit true true true)] = true
+  /\ path_ok st0 (exec_runs current st0 [(opts0, returns); (opts_module, mkProg SysExit true true true)]) = true
   /\ no_interval [(opts0, raises)] = true
   (* the repaired behaviour restores everything on the runs that refute the present one *)
   /\ restored st0 (exec_runs all_fixed st0 [(opts0, returns); (opts0, raises); (opts_timed, returns);
-                                            (opts_module, mkProg Exc true true)]) = true
-  /\ restored st0 (exec_runs current st0 [(opts0, returns)]) = false
+                                            (opts_module, mkProg Exc true true true)]) = true
   (* during the run the pieces really are changed (the model is not the identity) *)
-  /\ cur (path (snd (main_body current opts_module (mkProg Return true false) st0)))
+  /\ cur (path (snd (main_body current opts_module (mkProg Return true false true) st0)))
      = ["/T/setupd"; "/T"; "/lib"; "/prog-added"]
-  /\ cur (argv (snd (main_body current opts_module (mkProg Return false true) st0))) = ["mod"; "x"; "prog-added"].
+  /\ cur (argv (snd (main_body current opts_module (mkProg Return false true true) st0))) = ["mod"; "x"; "prog-added"].
 Proof. vm_compute. repeat split; reflexivity. Qed.
 
 (* ---- executable comparison used by the case shards ---------------------------------------------- *)
